@@ -642,6 +642,11 @@ C08_CHILD_REFS = (G, "gosym_part", dict(name="c08_child_references", entry="inte
                                desc="the real Namespace.GetAllChildReferences on every reference DAG over n namespaces (every list order, one optional repeated reference): each transitively "
                                     "referenced namespace exactly once, nothing else, every namespace after the namespaces it references (the order the generators emit per-namespace code in)"))
 
+C12_WRITE_IF_NEEDED = (G, "gosym_part", dict(name="c12_write_if_needed", entry="internal/zzverif.C12WriteIfNeeded",
+                               required_sites=("untouched-iff-identical", "created-when-missing", "final-content"),
+                               desc="iocommon.WriteFileIfNeeded on symbolic old/new contents (SMT strings): a write happens iff contents differ or the file is missing",
+                               assumptions=["os.ReadFile/WriteFile modelled by the virtual file system in env_intrinsics.go"]))
+
 PARTS = {
     "C08": [
         C04_CPP_LABELS_PART,   # version labels become distinct, keyword-free C++ enumerators
@@ -854,6 +859,7 @@ PARTS = {
         (PYG, "c15_py_schema_edits", dict()),   # generated NDJson / Binary readers refuse their own schema after any single edit (array prefix / extension, swapped elements, renamed member, changed scalar)
     ],
     "C04": [
+        C12_WRITE_IF_NEEDED,   # regenerating into the same directory after a wire-affecting edit replaces the embedded schema (a file is rewritten whenever its content differs at all)
         C04_EMBED_PART,
         (G, "gosym_part", dict(name="c04_neutral", entry="internal/zzverif.C04Neutral", args_quick=(1,), args_thorough=(0,),
                                required_sites=("neutral-edit-keeps-schema", "no-comment-in-schema", "no-computed-field-in-schema", "no-position-in-schema"),
@@ -970,10 +976,7 @@ PARTS = {
         (G, "gosym_part", dict(name="c12_warning_order", entry="internal/zzverif.C12WarningOrder", args_quick=(2,), args_thorough=(3,),
                                required_sites=("warnings-order-independent",),
                                desc="WarningSink.AsStrings, same obligation", assumptions=["line/column numbers are >= 1 when present"])),
-        (G, "gosym_part", dict(name="c12_write_if_needed", entry="internal/zzverif.C12WriteIfNeeded",
-                               required_sites=("untouched-iff-identical", "created-when-missing", "final-content"),
-                               desc="iocommon.WriteFileIfNeeded on symbolic old/new contents (SMT strings): a write happens iff contents differ or the file is missing",
-                               assumptions=["os.ReadFile/WriteFile modelled by the virtual file system in env_intrinsics.go"])),
+        C12_WRITE_IF_NEEDED,
         (G, "gosym_part", dict(name="c12_map_order", entry="internal/zzverif.C12MapOrder", args_quick=(2, 4, 56, 8, 2), args_thorough=(3, 5, 160, 16, 3),
                                extra_quick=("-max-paths", "100000"), extra_thorough=("-max-paths", "1000000"),
                                required_sites=("reference-run-succeeds", "run-succeeds-in-every-map-order", "every-map-range-covered", "output-independent-of-map-iteration-order"),
